@@ -261,6 +261,10 @@ type decEncoderField struct {
 	arrayLength byte
 	index       int
 	isExtension bool
+
+	// a single char is encoded as a 1-byte string but it is not an array,
+	// therefore its length must not be included in the CRC extra.
+	isScalarChar bool
 }
 
 // NewReadWriter allocates a ReadWriter.
@@ -311,6 +315,7 @@ func (rw *ReadWriter) Initialize() error {
 		}
 
 		isEnum := false
+		isScalarChar := false
 		var dialectType fieldType
 
 		// enum
@@ -350,6 +355,7 @@ func (rw *ReadWriter) Initialize() error {
 
 				if len(tagLen) == 0 { // char
 					arrayLength = 1
+					isScalarChar = true
 				} else { // string
 					slen, err := strconv.Atoi(tagLen)
 					if err != nil {
@@ -382,9 +388,10 @@ func (rw *ReadWriter) Initialize() error {
 				}
 				return fieldGoToDef(field.Name)
 			}(),
-			arrayLength: byte(arrayLength),
-			index:       i,
-			isExtension: isExtension,
+			arrayLength:  byte(arrayLength),
+			index:        i,
+			isExtension:  isExtension,
+			isScalarChar: isScalarChar,
 		}
 
 		sizeExtended += size
@@ -428,7 +435,7 @@ func (rw *ReadWriter) Initialize() error {
 			h.Write([]byte(fieldTypeString[f.ftype] + " "))
 			h.Write([]byte(f.name + " "))
 
-			if f.arrayLength > 0 {
+			if f.arrayLength > 0 && !f.isScalarChar {
 				h.Write([]byte{f.arrayLength})
 			}
 		}
